@@ -15,7 +15,8 @@ from ..refgrid import RefGrid, ulp_of, closest_level_spec
 PROPERTY = 'C03'
 LEVEL = 'exploration'
 RULE = ('Hypothesis-generated grid definitions (bbox from nice/nasty floats, tile size incl. non-square, '
-        'origin ll/ul, factor 2 / sqrt2 / arbitrary factor / custom resolution lists, stretch factor, '
+        'origin ll/ul, factor 2 / sqrt2 / arbitrary factor / custom resolution lists, deep 16-24 level pyramids of the '
+        'global geodetic / mercator and regional grids queried at their finest levels and largest tile indices, stretch factor, '
         'threshold_res) x queries (points, rectangles and resolutions placed on, one ulp beside, '
         '0.05/0.1/0.15 px beside and far from tile edges / level boundaries) checked against an '
         'exact-rational reference grid; plus bounded-exhaustive enumeration of all rectangles on an '
@@ -67,10 +68,20 @@ def grid_defs(draw):
     bbox = (x0, y0, x0 + w, y0 + h)
     tile_size = draw(st.sampled_from(TILE_SIZES))
     origin = draw(st.sampled_from(['ll', 'ul', 'sw', 'nw']))
-    mode = draw(st.sampled_from(['f2', 'f2', 'sqrt2', 'factor', 'custom', 'custom', 'minmax']))
+    mode = draw(st.sampled_from(['f2', 'f2', 'sqrt2', 'factor', 'custom', 'custom', 'minmax', 'deep']))
+    if mode == 'deep':
+        # deep pyramids at the fine end of the numerically meaningful range (res down to ~2e-9 of the coordinate
+        # magnitude, tile indices in the millions): the global geodetic / mercator grids and regional ones
+        bbox = draw(st.sampled_from([(-180.0, -90.0, 180.0, 90.0), (-180.0, -90.0, 180.0, 90.0),
+                                     (-20037508.342789244, -20037508.342789244, 20037508.342789244, 20037508.342789244),
+                                     (5.0, 47.0, 15.5, 55.25), (300000.0, 5200000.0, 900000.0, 6000000.0)]))
+        w, h = bbox[2] - bbox[0], bbox[3] - bbox[1]
+        tile_size = draw(st.sampled_from([(256, 256), (256, 256), (512, 512), (256, 128), (100, 100)]))
     d = {'bbox': bbox, 'tile_size': tile_size, 'origin': origin, 'mode': mode}
     init = max(w / tile_size[0], h / tile_size[1])
-    if mode == 'f2':
+    if mode == 'deep':
+        d['num_levels'] = draw(st.integers(16, 24))
+    elif mode == 'f2':
         d['num_levels'] = draw(st.integers(1, 14))
     elif mode == 'sqrt2':
         d['num_levels'] = draw(st.integers(1, 20))
@@ -106,7 +117,7 @@ def build_grid(d):
     kw = dict(srs='EPSG:3857', bbox=list(d['bbox']), tile_size=tuple(d['tile_size']), origin=d['origin'],
               stretch_factor=d['stretch_factor'])
     mode = d['mode']
-    if mode == 'f2':
+    if mode in ('f2', 'deep'):
         kw['num_levels'] = d['num_levels']
     elif mode == 'sqrt2':
         kw['res_factor'] = 'sqrt2'
@@ -449,6 +460,8 @@ def check_case(case, st_):
         return None
     ref = RefGrid.from_grid(g)
     z = q['level_pick'] % g.levels
+    if d['mode'] == 'deep' and q['level_pick'] % 3:
+        z = g.levels - 1 - (q['level_pick'] % 4) % g.levels   # mostly the finest levels of deep pyramids
     kind = q['kind']
     gx, gy = g.grid_sizes[z]
     nt = set()
